@@ -215,6 +215,7 @@ namespace Givaro {
         if (isZero(P)) GivError::throw_error(GivMathDivZero("[Poly1Dom<D>::div]"));
 #endif
         if (_domain.isZero(u)) { return assign(R,zero);}
+        setDegree(const_cast<Rep&>(P));
         size_t sP =P.size();
         if (sP >1) { R.resize(0); return R; }
         size_t sR =R.size();
@@ -314,6 +315,7 @@ namespace Givaro {
 #ifdef __GIVARO_DEBUG
         if (isZero(P)) GivError::throw_error(GivMathDivZero("[Poly1Dom<D>::mod]"));
 #endif
+        setDegree(const_cast<Rep&>(P));
         size_t sP =P.size();
         if (sP >1) {
             R.resize(1);
@@ -334,6 +336,7 @@ namespace Givaro {
         // Last step is erasing of the first values.
         //     write(std::cerr << "Rem(", A) << " ,";
         //     write(std::cerr, B) << ", X) mod " << _domain.size();
+        setdegree(A); setDegree(const_cast<Rep&>(B)); // the loop below works on size(): both must be normalised
         long i = (long)(A.size()-B.size());
         if (i >= 0) {
             typedef typename Rep::value_type TT;
@@ -416,12 +419,6 @@ namespace Givaro {
             _domain.assign(m, B[0]);
             return assign(Q, A);
         }
-        if (degA ==0)
-        {
-            assign(R, zero);
-            _domain.assign(m, _domain.one);
-            return assign(Q, zero);
-        }
         if (degB > degA) {
             assign(R, A);
             _domain.assign(m, _domain.one);
@@ -439,7 +436,9 @@ namespace Givaro {
         long i,j;
         for (i=degQuo; i>=0; --i)
         {
-            // == ld X^ (degRem-degQ)
+            // quo <- lB*quo + ld X^ (degRem-degQ)
+            for (j=degQuo+1; j<(long)Q.size(); j++)
+                _domain.mulin (Q[j], lB);
             _domain.assign(Q[degQuo], R[degRem]);
 
             // rem <- lB*rem - lQ*x^(degRem-degB)*B
@@ -485,11 +484,6 @@ namespace Givaro {
             _domain.assign(m, B[0]);
             return assign(R, zero);
         }
-        if (degA ==0)
-        {
-            _domain.assign(m, _domain.one);
-            return assign(R, zero);
-        }
         if (degB > degA) {
             _domain.assign(m, _domain.one);
             return assign(R, A);
@@ -505,7 +499,8 @@ namespace Givaro {
         //   _domain.pow(m, lB, degA.value()-degB.value()+1);
         dom_power(m, lB, degA.value()-degB.value()+1,_domain);
         //_domain.write(std::cout << "m:", m) << std::endl;
-        for (; degB<= degR; )
+        long steps = degA.value()-degB.value()+1; // m = lB^steps: R must be scaled that many times
+        for (; degB<= degR; --steps)
         {
             long d = degR.value()-degB.value();
             // R <- lB*R - lR*x^(degR-degB)*B
@@ -520,6 +515,8 @@ namespace Givaro {
             degree(degR, R);
         }
         R.resize((size_t)degR.value()+1);
+        for (; steps>0; --steps) // the degree dropped by more than one somewhere
+            this->mulin(R, lB);
         return setdegree(R);
     }
 
